@@ -14,6 +14,7 @@ CONSTANTS
  InitChan <- Empty
  InitFifo = TRUE
  GenDepth = 90
+ LateParty = 99
 INVARIANTS GenPrint
 PROPERTIES DeliveryStepP 
 CHECK_DEADLOCK FALSE
